@@ -221,8 +221,8 @@ def run_case(case, col, path, buffers, sample=False, cache=True):
 def run(tier, seed, **opts):
     rng = random.Random(seed)
     quick = tier == "quick"
-    max_mask = 7 if quick else 9
-    max_letters = 3 if quick else 4
+    max_mask = 7 if quick else 10
+    max_letters = 3 if quick else 5
     n_random = 150 if quick else 4000
     col = Collector(
         "FASTA files rendered from a model (1-3 records; residue strings = every ACGT/other mask up to "
